@@ -290,7 +290,39 @@ def call_impl(fn, args, stream="plain", replay_entropy=None, kwargs=None):
     ENT.log = []
     after = [snapshot(a) for a in args]
     r.args_changed = before != after
+    if isinstance(fn, str) and not kwargs and replay_entropy is None and not r.args_changed:
+        _opt_record(fn, args, stream, r)
     return r
+
+
+OPT_POOL = []
+_OPT_COUNT = {}
+
+
+def generic_canon(v):
+    """canonical text of any result (bytes, str, int, None, Header, tuples of these) - used where no per-call tokeniser is at hand"""
+    if isinstance(v, (tuple, list)):
+        return "(" + ";".join(generic_canon(x) for x in v) + ")"
+    try:
+        return enc(v)
+    except TypeError:
+        return "<" + type(v).__name__ + ">"
+
+
+def _opt_record(fn, args, stream, r):
+    """keep up to forty calls per public function (the first ones and then every seventh) for the `python -O` repetition"""
+    k = _OPT_COUNT.get(fn, 0)
+    _OPT_COUNT[fn] = k + 1
+    if k >= 12 and (k % 7 or sum(1 for x in OPT_POOL if x[0] == fn) >= 40):
+        return
+    if sum(len(a) for a in args if isinstance(a, (bytes, bytearray, str))) > 20000:
+        return      # very large arguments are exercised in this process only
+    try:
+        kept = copy.deepcopy(list(args))
+    except Exception:  # noqa: BLE001
+        return
+    outcome = ("ok\t" + generic_canon(r.value)) if r.ok else ("err\t" + r.err)
+    OPT_POOL.append((fn, kept, stream, r.entropy, outcome))
 
 
 _CALLNO = [0]
@@ -786,6 +818,51 @@ def recheck_sample(cases, rng, limit=600):
                     c.impl_fail.append(f"{fn}: call {attempt} with the same arguments held in bytearray buffers returned `{got2[:120]}`, `{want[:120]}` with bytes")
                     break
     return n
+
+
+def optimised_recheck(limit=600):
+    """The calls kept by `_opt_record` (up to forty per public function, with the operating-system entropy each one drew) are
+    repeated in a child interpreter started with `-O` - assert statements and `if __debug__` blocks are compiled away there:
+    the library must not do any of its work inside an assert. Same outcome as in this process, call by call (randomised
+    calls under the recorded entropy). Returns a Case carrying the failures, or None when there was nothing to repeat."""
+    import pickle
+    import tempfile
+    pool = OPT_POOL[:limit]
+    if not pool:
+        return None
+    c = Case("repeated-under-python-O", {"calls": len(pool), "functions": len({x[0] for x in pool})})
+    c.key = "python-O"
+    with tempfile.TemporaryDirectory() as td:
+        inp, outp = os.path.join(td, "in.pkl"), os.path.join(td, "out.pkl")
+        items = []
+        for fn, args, stream, entropy, outcome in pool:
+            try:
+                pickle.dumps(args)
+                items.append((fn, args, stream, entropy, outcome))
+            except Exception:  # noqa: BLE001  (an argument that cannot be pickled: not repeated)
+                pass
+        pickle.dump([(fn, args, stream, entropy) for fn, args, stream, entropy, _ in items], open(inp, "wb"))
+        env = dict(os.environ, PSEC_REPO=os.path.abspath(REPO), PYTHONOPTIMIZE="1")
+        p = subprocess.run([sys.executable, "-O", os.path.join(os.path.dirname(os.path.abspath(__file__)), "optchild.py"), inp, outp],
+                           cwd=os.path.dirname(os.path.abspath(__file__)), env=env, capture_output=True, text=True, timeout=900)
+        if p.returncode != 0 or not os.path.exists(outp):
+            raise InfraError("the -O child interpreter failed: " + (p.stderr or p.stdout)[-500:])
+        res = pickle.load(open(outp, "rb"))
+    if res["asserts_active"]:
+        raise InfraError("the child interpreter did not run with asserts stripped")
+    bad = 0
+    for (fn, args, stream, entropy, want), got in zip(items, res["outcomes"]):
+        if got != want:
+            bad += 1
+            if bad <= 5:
+                c.impl_fail.append(f"{fn}: under `python -O` (asserts stripped) the same call returned `{got[:120]}`, `{want[:120]}` in a default interpreter")
+                try:
+                    c.calls.append({"fn": fn, "args": [enc(a) for a in args], "entropy": entropy.hex(), "stream": stream, "interpreter": "python -O"})
+                except TypeError:
+                    pass
+    c.desc["differing"] = bad
+    del OPT_POOL[:]
+    return c
 
 
 def reply_value(reply):
